@@ -58,7 +58,7 @@ BOUNDS = {
                  'materialised pairs': 'same, incl. constant-operand and '
                                        'no-bias variants'},
 }
-REACH = {'sym': ['decided'], 'mat': ['pipeline']}
+REACH = {'sym': ['decided'], 'mat': ['pipeline'], 'policy': ['policy']}
 _Op = qtyping.TFLOperationName
 T = qtyping.TensorQuantizationConfig
 ALGS = c12.ALGS
@@ -126,6 +126,75 @@ def accepted_pairs():
   return _ACC['acc']
 
 
+def reference_policy():
+  """The accepted (operator -> configs) table written out from the TEXT of
+  DEFAULT_JSON_POLICY by the check itself (not by the library's unrolling
+  code): every config entry stands for the product of its listed symmetric x
+  granularity alternatives of activation and weight config; every operator
+  listed under the entry gets all of them."""
+  import json
+  pol = json.loads(default_policy.DEFAULT_JSON_POLICY)
+  table = {}
+  for cname, ops in pol['ops_per_config'].items():
+    c = pol['configs'][cname]
+
+    def alts(tc):
+      if tc is None:
+        return [None]
+      return [T(num_bits=tc['num_bits'], symmetric=s,
+                granularity=qtyping.QuantGranularity(g),
+                dtype=qtyping.TensorDataType(tc['dtype']))
+              for s in tc['symmetric'] for g in tc['granularity']]
+    cfgs = [qtyping.OpQuantizationConfig(
+        activation_tensor_config=a, weight_tensor_config=w,
+        compute_precision=qtyping.ComputePrecision(c['compute_precision']),
+        explicit_dequantize=c['explicit_dequantize'])
+            for a in alts(c.get('activation_tensor_config'))
+            for w in alts(c['weight_tensor_config'])]
+    for op in ops:
+      table.setdefault(op, [])
+      for cfg in cfgs:
+        if cfg not in table[op]:
+          table[op].append(cfg)
+  return table
+
+
+def job_policy(job):
+  """Exhaustive over the lattice: the min/max algorithm accepts (operator,
+  config) only if the JSON policy text lists it; every listed pair is
+  accepted."""
+  ref = reference_policy()
+  acc = {}
+  for alg, op, cfg in accepted_pairs():
+    if alg == ALGS[1]:
+      acc.setdefault(op.value, []).append(cfg)
+  bad = []
+  n = 0
+  for op in _Op:
+    if op == _Op.ALL_SUPPORTED:
+      continue
+    want, got = ref.get(op.value, []), acc.get(op.value, [])
+    n += len(want) + len(got)
+    for cfg in got:
+      if cfg not in want:
+        bad.append(('accepted although the policy text does not list it',
+                    op.value, cfg))
+    for cfg in want:
+      if cfg not in got:
+        bad.append(('listed in the policy text but refused', op.value, cfg))
+  st = {'paths': n, 'decisions': n, 'obligations': n,
+        'discharged': n - len(bad), 'solver_calls': 0, 'solver_time': 0.0,
+        'reached': {'policy': n}}
+  cands = [Candidate('C13.accepted_set_equals_policy_text',
+                     {'tag': 'policy', 'what': w, 'op': o,
+                      'cfg': c12.J(c.to_dict())}) for w, o, c in bad[:6]]
+  for c in cands:
+    c.job = job.name
+  return JobResult(job.name, st, cands, [], {}, samples=[
+      f'{n} (operator, config) pairs: accepted set of the min/max algorithm '
+      'vs the table written out from the policy text'])
+
+
 IGNORED_BY_FLOAT_CASTING = ('symmetric', 'granularity', 'block_size')
 
 
@@ -156,6 +225,10 @@ def in_list_formula(cfg, members, alg=None):
 # ---------------------------------------------------------------------------
 def make_sym_harness(op, alg):
   members = [c for a, o, c in accepted_pairs() if a == alg and o == op]
+  if alg == ALGS[1]:
+    # min/max algorithm: the reference is the table written out from the
+    # policy TEXT by the check, not what the library's check accepts
+    members = reference_policy().get(op.value, [])
 
   def h(e):
     try:
@@ -373,7 +446,7 @@ def job_readme(job):
 
 
 def jobs(tier, seed):
-  js = [Job('readme', job_readme, {})]
+  js = [Job('readme', job_readme, {}), Job('policy', job_policy, {})]
   sym_cases = [(op.value, ai) for op in _Op if op != _Op.ALL_SUPPORTED
                for ai in (1, 2)]
   for i in range(0, len(sym_cases), 3):
@@ -388,6 +461,17 @@ def jobs(tier, seed):
 # ---------------------------------------------------------------------------
 def replay(c):
   d = c['data']
+  if d.get('tag') == 'policy':
+    cfg = qtyping.OpQuantizationConfig.from_dict(d['cfg'])
+    try:
+      algorithm_manager.check_op_quantization_config(ALGS[1], _Op(d['op']), cfg)
+      accepted = True
+    except ValueError:
+      accepted = False
+    listed = cfg in reference_policy().get(d['op'], [])
+    return accepted != listed, 'policy: ' + d['what'], (
+        f"{d['op']} with {d['cfg']}: accepted={accepted}, listed in "
+        f'DEFAULT_JSON_POLICY={listed}')
   if d.get('tag') == 'mat':
     recipe, op = pair_recipe(d['pair'])
     fam = P.skeleton_family('thorough')
